@@ -46,7 +46,7 @@ class DocBuilder:
         self.w = w
         self.o = dict(clash=0.2, foreign=0.15, value_kinds=None, repeat_id=0.2, malformed=0.05,
                       paths=("new_record", "factory", "conv"), defaults=0.3, bare=True, fulluri=True,
-                      multi=0.2, anon=0.5)
+                      multi=0.2, anon=0.5, dup_formal=0.06)
         self.o.update(opts)
         self.ids = {}        # scope -> list of identifiers used (QualifiedName objects as returned)
         self.elems = {}      # scope -> list of (handle, kind)
@@ -196,6 +196,13 @@ class DocBuilder:
             ident = g.choice([None, "nope:x"])
         args = self.formal_args(c, kind)
         other = self.other_attrs(c)
+        if FORMALS[kind] and g.chance(self.o["dup_formal"]):
+            # the same formal attribute once more in the same call (same or different value)
+            i = g.rng.randrange(len(FORMALS[kind]))
+            l = FORMALS[kind][i]
+            v2 = (self.time() if l in TIME_ATTRS else self.ref(c)) if g.chance(0.7) else args[i]
+            if v2 is not None:
+                other = other + [(PROV[l] if g.chance(0.5) else "prov:" + l, v2)]
         h = err = None
         if path == "conv" and not elem and self.elems[c]:
             cands = [(m, k) for (eh, ek) in self.elems[c] for (m, k) in CONV[ek] if k == kind]
